@@ -437,4 +437,214 @@ theorem chgScan_canon (st : Nat) (ids : List Nat) (z : Nat) : ∀ (l : List MsEn
       congr 1
       exact ih ids' (fun y hy => hok y (by simp [hy])) hnd.2 (fun y hy => hids y (by simp [hy]))
 
+/-- What a reader sees in any file whose arrays have the build SHAPE (whatever follows the used part
+    of the index array and of the data). -/
+theorem abs_shape (f : File) (items : List Item) (z : Nat) (rest tail : List Nat)
+    (hm : f.mwords = items.map (·.1) ++ zeros z)
+    (hi : f.index = hdrBytes f.n128 :: (idxFrom (hdrBytes f.n128) items ++ rest))
+    (hd : f.data = dataOf items ++ tail) (hnz : ∀ it ∈ items, it.1 ≠ 0) :
+    abs f = { n128 := f.n128, entries := items.map itemEntry } := by
+  unfold abs File.rows File.fileLen
+  rw [hm, hi, hd, readRows_build _ _ _ items (hdrBytes f.n128) hnz (by simp only [List.length_append]; omega)]
+  have := rows_entries (hdrBytes f.n128) tail items [] (hdrBytes f.n128) (Nat.le_refl _) (by simp)
+  rw [List.nil_append] at this
+  rw [this]
+
+theorem entryBytes_chgEntry (st : Nat) (ids : List Nat) (x : MsEntry) :
+    entryBytes (chgEntry st ids x) = entryBytes x := by
+  unfold chgEntry
+  split <;> rfl
+
+theorem idxFrom_map_congr (f : MsEntry → MsEntry) (hf : ∀ x, entryBytes (f x) = entryBytes x) (l : List MsEntry) (s : Nat) :
+    idxFrom s ((l.map f).map itemOf) = idxFrom s (l.map itemOf) := by
+  induction l generalizing s with
+  | nil => rfl
+  | cons x t ih =>
+    have : (itemOf (f x)).2.length = (itemOf x).2.length := by simp [itemOf, hf]
+    simp only [List.map_cons, idxFrom, this, ih]
+
+theorem dataOf_map_congr (f : MsEntry → MsEntry) (hf : ∀ x, entryBytes (f x) = entryBytes x) (l : List MsEntry) :
+    dataOf ((l.map f).map itemOf) = dataOf (l.map itemOf) := by
+  induction l with
+  | nil => rfl
+  | cons x t ih =>
+    have : (itemOf (f x)).2 = (itemOf x).2 := by simp [itemOf, hf]
+    simp only [List.map_cons, dataOf, this, ih]
+
+/-- **`chgstatus` on the canonical file** is the abstract command on the list of entries. -/
+theorem fileChg_canon (n : Nat) (l : List MsEntry) (tail : List Nat) (st : Nat) (ids : List Nat)
+    (hok : ∀ x ∈ l, EntryOk x) (hnd : NoDupL l) :
+    fileChg (build n (l.map itemOf) tail) st ids
+      = (build n ((l.map (chgEntry st ids)).map itemOf) tail, true) := by
+  unfold fileChg build
+  simp only [List.length_map]
+  rw [chgScan_canon st ids _ l ids.eraseDups hok hnd (fun y _ _ => by simp [List.mem_eraseDups])]
+  rw [idxFrom_map_congr _ (entryBytes_chgEntry st ids), dataOf_map_congr _ (entryBytes_chgEntry st ids)]
+
+/-! ### `purge` -/
+
+def repack (it : Item) : Item := (pack (wStatus it.1) (wDepth it.1) (wId it.1), it.2)
+
+theorem rows_live_items (hdr : Nat) (tail : List Nat) : ∀ (items : List Item) (pre : List Nat) (s : Nat),
+    hdr ≤ s → pre.length = s - hdr →
+    ((rowsOf s items).filter fun r => decide (wStatus r.1 > 1)).map (rowItem hdr (pre ++ (dataOf items ++ tail)))
+      = (items.filter fun it => decide (wStatus it.1 > 1)).map repack := by
+  intro items
+  induction items with
+  | nil => intro _ _ _ _; rfl
+  | cons it t ih =>
+    intro pre s hs hp
+    have e1 : rowItem hdr (pre ++ (it.2 ++ dataOf t ++ tail)) (it.1, s, s + it.2.length) = repack it := by
+      unfold rowItem repack
+      simp only []
+      rw [List.append_assoc, slice_mid pre it.2 _ _ _ (by omega) (by omega)]
+    have iht := ih (pre ++ it.2) (s + it.2.length) (by omega) (by simp only [List.length_append]; omega)
+    simp only [List.append_assoc] at iht e1
+    simp only [rowsOf, dataOf, List.filter_cons, List.append_assoc]
+    by_cases hl : wStatus it.1 > 1
+    · simp only [hl, decide_true, ↓reduceIte, List.map_cons, e1, iht]
+    · simp only [hl, decide_false, Bool.false_eq_true, ↓reduceIte, iht]
+
+theorem repack_itemOf (x : MsEntry) (h : EntryOk x) : repack (itemOf x) = itemOf x := by
+  obtain ⟨h1, h2, h3, h4, _⟩ := h
+  obtain ⟨u1, u2, u3⟩ := unpack x.status x.depth x.id h2 h3
+  unfold repack itemOf
+  simp only [u1, u2, u3, Nat.mod_eq_of_lt h4]
+
+theorem wStatus_itemOf (x : MsEntry) (h : EntryOk x) : wStatus (itemOf x).1 = x.status :=
+  (unpack x.status x.depth x.id h.2.1 h.2.2.1).1
+
+/-- **`purge` on the canonical file**: the canonical file (no leftover bytes) of the live entries. -/
+theorem filePurge_canon (n : Nat) (l : List MsEntry) (tail : List Nat) (k : Option Nat)
+    (hok : ∀ x ∈ l, EntryOk x) :
+    filePurge (build n (l.map itemOf) tail) k
+      = (build (max (k.getD 1) n) ((l.filter fun x => decide (x.status > 1)).map itemOf) [], true) := by
+  have hnz : ∀ it ∈ l.map itemOf, it.1 ≠ 0 := by
+    intro it hit
+    obtain ⟨x, hx, rfl⟩ := List.mem_map.1 hit
+    exact itemOf_ne_zero x (hok x hx)
+  unfold filePurge File.rows File.fileLen
+  simp only [build]
+  rw [readRows_build _ _ _ (l.map itemOf) (hdrBytes n) hnz (by simp only [List.length_append]; omega)]
+  have := rows_live_items (hdrBytes n) tail (l.map itemOf) [] (hdrBytes n) (Nat.le_refl _) (by simp)
+  rw [List.nil_append] at this
+  rw [this]
+  have e : ((l.map itemOf).filter fun it => decide (wStatus it.1 > 1)).map repack
+      = (l.filter fun x => decide (x.status > 1)).map itemOf := by
+    clear this
+    induction l with
+    | nil => rfl
+    | cons x t ih =>
+      have hx := hok x (by simp)
+      have iht := ih (fun y hy => hok y (by simp [hy])) (fun it hit => hnz it (by simp only [List.map_cons, List.mem_cons]; exact .inr hit))
+      simp only [List.map_cons, List.filter_cons, wStatus_itemOf x hx]
+      by_cases hl : x.status > 1
+      · simp only [hl, decide_true, ↓reduceIte, List.map_cons, repack_itemOf x hx, iht]
+      · simp only [hl, decide_false, Bool.false_eq_true, ↓reduceIte, iht]
+  rw [e]
+
+/-! ### `list` -/
+
+theorem rows_list (l : List MsEntry) (hok : ∀ x ∈ l, EntryOk x) (s : Nat) :
+    (rowsOf s (l.map itemOf)).map (fun r =>
+        (wId r.1, wStatus r.1, wDepth r.1, (r.2.2 - r.2.1) / (elemBytes (wDepth r.1) <<< 1), r.2.2 - r.2.1))
+      = l.map fun e => (e.id, e.status, e.depth, e.ranges.length, e.byteSize) := by
+  induction l generalizing s with
+  | nil => rfl
+  | cons x t ih =>
+    obtain ⟨h1, h2, h3, h4, _⟩ := hok x (by simp)
+    obtain ⟨u1, u2, u3⟩ := unpack x.status x.depth x.id h2 h3
+    have hk := elemBytes_pos x.depth
+    have hlen : (itemOf x).2.length = x.ranges.length * 2 * elemBytes x.depth := entryBytes_length x
+    simp only [List.map_cons, rowsOf, ih (fun y hy => hok y (by simp [hy]))]
+    congr 1
+    simp only [itemOf, u1, u2, u3, Nat.mod_eq_of_lt h4, Nat.add_sub_cancel_left] at hlen ⊢
+    rw [hlen]
+    have : x.ranges.length * 2 * elemBytes x.depth / (elemBytes x.depth <<< 1) = x.ranges.length := by
+      rw [Nat.shiftLeft_eq, Nat.pow_one, Nat.mul_assoc, Nat.mul_comm 2]
+      exact Nat.mul_div_cancel _ (by omega)
+    rw [this]
+    rfl
+
+/-- **`mocset list` computed from the words of a canonical file** (byte size = difference of two
+    index words, number of ranges = byte size / (2 × element size)) is the abstract listing. -/
+theorem fileList_canon (n : Nat) (l : List MsEntry) (tail : List Nat) (hok : ∀ x ∈ l, EntryOk x) :
+    fileList (build n (l.map itemOf) tail) = msList { n128 := n, entries := l } := by
+  have hnz : ∀ it ∈ l.map itemOf, it.1 ≠ 0 := by
+    intro it hit
+    obtain ⟨x, hx, rfl⟩ := List.mem_map.1 hit
+    exact itemOf_ne_zero x (hok x hx)
+  unfold fileList File.rows File.fileLen msList
+  simp only [build]
+  rw [readRows_build _ _ _ (l.map itemOf) (hdrBytes n) hnz (by simp only [List.length_append]; omega)]
+  exact rows_list l hok _
+
+theorem map_itemEntry_itemOf (l : List MsEntry) (hok : ∀ x ∈ l, EntryOk x) :
+    (l.map itemOf).map itemEntry = l := by
+  rw [List.map_map]
+  have : l.map (itemEntry ∘ itemOf) = l.map id := by
+    apply List.map_congr_left
+    intro e he
+    exact itemEntry_itemOf e (hok e he)
+  rw [this, List.map_id]
+
+/-! ### An interrupted `append` (C16) -/
+
+/-- **What a reader sees after the first `k` stores of an `append`** on a canonical file: the OLD
+    moc-set as long as the metadata word is not stored (data written, index word stored), the NEW
+    one from then on — never anything else. -/
+theorem appendPrefix_abs (n : Nat) (l : List MsEntry) (tail : List Nat) (e : MsEntry) (k : Nat)
+    (hok : ∀ x ∈ l, EntryOk x) (he : EntryOk e) :
+    abs (fileAppendPrefix (build n (l.map itemOf) tail) e k)
+      = if k ≥ 3 then (msAppend { n128 := n, entries := l } e).1 else { n128 := n, entries := l } := by
+  have hnz : ∀ it ∈ l.map itemOf, it.1 ≠ 0 := by
+    intro it hit
+    obtain ⟨x, hx, rfl⟩ := List.mem_map.1 hit
+    exact itemOf_ne_zero x (hok x hx)
+  have hs := scan_build e.id (pack e.status e.depth e.id) (entryBytes e).length
+    (capOf n - (l.map itemOf).length) (l.map itemOf) (hdrBytes n) hnz
+  have hcap := cap_eq n l
+  have hold := abs_canon n l tail hok
+  unfold fileAppendPrefix
+  simp only [build] at hs hold ⊢
+  rw [hs, dupIn_canon e.id l hok]
+  unfold msAppend
+  simp only [List.length_map] at *
+  by_cases hd : (l.any fun x => x.id == e.id && decide (x.status > 1)) = true
+  · simp only [hd, ↓reduceIte, hold, ite_self]
+  · simp only [hd, Bool.false_eq_true, ↓reduceIte]
+    by_cases hz : capOf n - l.length = 0
+    · have : l.length ≥ ({ n128 := n, entries := l } : MocSet).cap := by rw [← hcap]; omega
+      rw [hz] at hold
+      simp only [hz, ↓reduceIte, hold, this, ite_self]
+    · have hfull : ¬ l.length ≥ ({ n128 := n, entries := l } : MocSet).cap := by rw [← hcap]; omega
+      simp only [hz, ↓reduceIte, hfull, Nat.add_sub_cancel_left, writeAt_end]
+      match k with
+      | 0 => simp only [show ¬ (0 ≥ 1) by omega, show ¬ (0 ≥ 2) by omega, show ¬ (0 ≥ 3) by omega, ↓reduceIte, hold]
+      | 1 =>
+        simp only [show (1 ≥ 1) by omega, show ¬ (1 ≥ 2) by omega, show ¬ (1 ≥ 3) by omega, ↓reduceIte]
+        rw [abs_shape _ (l.map itemOf) (capOf n - l.length) (zeros (capOf n - l.length))
+          (entryBytes e ++ tail.drop (entryBytes e).length) rfl rfl (by simp) hnz]
+        rw [map_itemEntry_itemOf l hok]
+      | 2 =>
+        simp only [show (2 ≥ 1) by omega, show (2 ≥ 2) by omega, show ¬ (2 ≥ 3) by omega, ↓reduceIte]
+        rw [abs_shape _ (l.map itemOf) (capOf n - l.length)
+          ((hdrBytes n + (dataOf (l.map itemOf)).length + (entryBytes e).length) :: zeros (capOf n - l.length - 1))
+          (entryBytes e ++ tail.drop (entryBytes e).length) rfl rfl (by simp) hnz]
+        rw [map_itemEntry_itemOf l hok]
+      | k + 3 =>
+        simp only [show (k + 3 ≥ 1) by omega, show (k + 3 ≥ 2) by omega, show (k + 3 ≥ 3) by omega, ↓reduceIte]
+        have hsub : capOf n - l.length - 1 = capOf n - (l.length + 1) := by omega
+        have hnew := abs_canon n (l ++ [e]) (tail.drop (entryBytes e).length) (by
+          intro x hx
+          simp only [List.mem_append, List.mem_singleton] at hx
+          rcases hx with hx | rfl
+          · exact hok x hx
+          · exact he)
+        simp only [build, List.map_append, List.map_cons, List.map_nil, List.length_append, List.length_cons,
+          List.length_nil, Nat.zero_add, idxFrom_append, idxFrom, dataOf_append, dataOf, List.append_nil,
+          List.append_assoc, List.cons_append, List.nil_append, List.length_map, itemOf] at hnew
+        simp only [hsub, itemOf, List.append_assoc, List.cons_append, List.nil_append]
+        exact hnew
+
 end Moc.MsFile
